@@ -74,6 +74,50 @@ class Ctx:
                                                           ' <- '.join(l.strip() for l in traceback.format_exc().split('\n')[-6:-1])))
         return None
 
+    # ---- who-may rules: attribution of a site to the functions that are responsible for it.  A private helper that is
+    # only ever called from vetted functions is part of them (extract-method must not change a verdict); a vetted
+    # function that was inlined into its caller leaves the site in the caller, which the rule then has to vet by
+    # structure (each rule says how).
+    def revcg(self):
+        if getattr(self, '_revcg', None) is None:
+            rev = {}
+            for name, f in self.F.fns.items():
+                for b in f['blocks']:
+                    if b['cleanup']:
+                        continue
+                    t = b['term']
+                    if t['k'] == 'call' and 'fn' in t:
+                        for nm in {t.get('resolved'), t['fn']}:
+                            if nm in self.F.fns and nm != name:
+                                rev.setdefault(nm, set()).add(name)
+                if f['kind'] == 'Closure' and f.get('parent') in self.F.fns:
+                    rev.setdefault(name, set()).add(f['parent'])
+            self._revcg = rev
+        return self._revcg
+
+    def subjects_for(self, fn):
+        """the functions a rule should analyse when it discovered `fn` as a subject: fn itself, or - if fn is a helper
+        that does not exist in the reference tree - the reference functions that (transitively) call it"""
+        if fn not in self.F.fresh:
+            return {fn}
+        return {o for o in self.terminal_owners(fn, lambda f_: f_ not in self.F.fresh) if o not in self.F.fresh} or {fn}
+
+    def terminal_owners(self, fn, allowed):
+        """functions answerable for a site in fn: fn itself if allowed(fn) or if nothing in the crate calls it, else
+        (transitively) its callers"""
+        rev = self.revcg()
+        seen, out, st = set(), set(), [fn]
+        while st:
+            f = st.pop()
+            if f in seen:
+                continue
+            seen.add(f)
+            if allowed(f) or not rev.get(f):
+                out.add(f)
+            else:
+                st.extend(rev[f])
+        return out
+
     # ---- graphs
     def graph(self, root, flavour=None, depth=None, inline_filter=None, tag=None):
         key = (root, flavour, depth or self.depth, tag)
@@ -141,6 +185,7 @@ class GX:
         self.fences = fences(g)
         self.by_site = {}
         self._tests = {}
+        self._fresh = set((getattr(g.facts, 'aliases', None) or {}).get('fresh') or ())
         for n in g.nodes:
             if n.id in g.live():
                 self.by_site.setdefault(self.site(n.id), []).append(n.id)
@@ -247,6 +292,49 @@ class GX:
                 hit.append(x)
         return t, f, hit
 
+    def home(self, nid):
+        """the instance a node belongs to for rules that speak about "the code of this operation itself": helper
+        functions that do not exist in the reference tree (extract-method refactorings) count as their caller"""
+        g = self.g
+        fresh = self._fresh
+        i = g.nodes[nid].inst
+        while i is not None and g.insts[i].parent is not None and (g.insts[i].fn in fresh or g.insts[i].fn in g.facts.xfns):
+            i = g.insts[i].parent
+        return i
+
+    def loop_bounds(self):
+        """bound expressions of the counting loops of the graph, whatever their form: the argument of
+        `for i in a..b` (the Range handed to into_iter) and the right-hand side of `while i < b` when i starts at 0 and
+        is incremented by 1"""
+        g = self.g
+        out = []
+        for n in self.ext_calls(r'into_iter$'):
+            out += list(g.call_args(n))
+
+        def incr(z):
+            z = g.strip(z)
+            if z[0] == 'fld' and z[2] == '0':
+                z = g.strip(z[1])
+            if z[0] == 'bin' and z[1].replace('WithOverflow', '').replace('Unchecked', '') == 'Add':
+                return is_const(g.strip(z[2]), 1) or is_const(g.strip(z[3]), 1)
+            return False
+        for t in self.tests(('Lt',)):
+            a = t.a
+            if a[0] == 'phi' and any(is_const(g.strip(z), 0) for z in a[1]) and any(incr(z) for z in a[1]):
+                out.append(t.b)
+        return out
+
+    def within(self, nid, regex):
+        """node lies in an inlined instance of a function matching regex (at any depth of the inlining chain)"""
+        g = self.g
+        i = g.nodes[nid].inst
+        r = re.compile(regex)
+        while i is not None:
+            if r.search(g.insts[i].fn):
+                return True
+            i = g.insts[i].parent
+        return False
+
     # ---- event lookup
     def rep(self, nid):
         """representative of a site: the original node (threading clones have larger ids)"""
@@ -331,6 +419,10 @@ class GX:
                 elif want == 'nonzero' and (v is None and '0' in (oth or ()) or (v is not None and str(v) != '0')):
                     out.append(eid)
                 elif v is not None and str(v) == str(want):
+                    out.append(eid)
+                elif v is None and want not in ('zero', 'nonzero') and str(want) not in [str(o) for o in (oth or ())]:
+                    # `if let Some(..) = e {..} else {..}` lists only the variant it binds: the other variant(s) take
+                    # the otherwise edge
                     out.append(eid)
         return out
 
